@@ -32,13 +32,16 @@ type Config struct {
 	Compress bool
 	FastSave bool
 	Purge    bool // utxo.UTXO_PURGE_UNSPENDABLE (a freshly configured client's default)
+	// HeaderFirst: blocks handed over the way the client does it (chainsim.NodeOpts.HeaderFirst)
+	HeaderFirst bool
 }
 
 // WorkConfig: branches with different per-block work (longer-but-lighter vs shorter-but-heavier).
 var WorkConfig = Config{Name: "testnet-work", Testnet: true, Work: true, FastSave: true}
 
 func Configs() []Config {
-	return []Config{{Name: "plain"}, {Name: "compressed-fastsave", Compress: true, FastSave: true, Purge: true}, {Name: "testnet-fastsave", Testnet: true, FastSave: true}}
+	return []Config{{Name: "plain"}, {Name: "compressed-fastsave", Compress: true, FastSave: true, Purge: true}, {Name: "testnet-fastsave", Testnet: true, FastSave: true},
+		{Name: "plain-headerfirst", HeaderFirst: true}}
 }
 
 // WorkMode: tree blocks randomly get a >20-minute gap (testnet minimum-difficulty block) or a normal gap.
@@ -84,7 +87,7 @@ func ChildFor(prop string, seed int64, tier, cfgName, stateFile string, trees in
 	if cfg.Purge {
 		run.Inc("histories_with_purge_unspendable")
 	}
-	s := chainsim.NewSim(run, r, p, dir, chainsim.NodeOpts{CompressUTXO: cfg.Compress})
+	s := chainsim.NewSim(run, r, p, dir, chainsim.NodeOpts{CompressUTXO: cfg.Compress, HeaderFirst: cfg.HeaderFirst})
 	defer s.Close()
 	g := s.G
 	if cfg.Work {
